@@ -1,6 +1,9 @@
 use std::time::Instant;
 use vf_harness::util::{Ctx, Tier};
 
+#[global_allocator]
+static ALLOC: vf_harness::heapmon::Mon = vf_harness::heapmon::Mon;
+
 fn main() {
     let args: Vec<String> = std::env::args().collect();
     if args.len() < 2 {
@@ -37,13 +40,30 @@ fn main() {
         });
     let ctx = Ctx { property: prop.clone(), tier, seed, start: Instant::now(), soft_cap_s };
     vf_harness::util::quiet_panics();
-    let code = match prop.as_str() {
-        "C01" | "C02" | "C03" | "C04" => vf_harness::leafcheck::run(&prop, &ctx),
-        "C06" | "C07" | "C08" | "C09" => vf_harness::wrapcheck::run_private(&prop, &ctx),
-        "C12" | "C13" => vf_harness::wrapcheck::run_public(&prop, &ctx),
-        "C36" => vf_harness::wrapcheck::run_c36(&ctx),
-        _ => {
-            eprintln!("unknown property {prop}");
+    vf_harness::util::capture_stdio();
+    let run = || -> i32 {
+        match prop.as_str() {
+            "C01" | "C02" | "C03" | "C04" => vf_harness::leafcheck::run(&prop, &ctx),
+            "C06" | "C07" | "C08" | "C09" => vf_harness::wrapcheck::run_private(&prop, &ctx),
+            "C12" | "C13" => vf_harness::wrapcheck::run_public(&prop, &ctx),
+            "C36" => vf_harness::wrapcheck::run_c36(&ctx),
+            "C24" => vf_harness::pure::run_c24(&ctx),
+            "C25" => vf_harness::pure::run_c25(&ctx),
+            "C26" => vf_harness::pure::run_c26(&ctx),
+            "C35" => vf_harness::pure::run_c35(&ctx),
+            "C28" => vf_harness::policy::run_c28(&ctx),
+            "C29" => vf_harness::policy::run_c29(&ctx),
+            _ => {
+                eprintln!("unknown property {prop}");
+                2
+            }
+        }
+    };
+    let code = match std::panic::catch_unwind(std::panic::AssertUnwindSafe(run)) {
+        Ok(c) => c,
+        Err(_) => {
+            let msg = vf_harness::util::LAST_PANIC.lock().map(|g| g.clone()).unwrap_or_default();
+            vf_harness::util::out(&format!("INCONCLUSIVE property={prop} reason=harness panicked outside a guarded probe: {}", msg.replace('\n', " ")));
             2
         }
     };
